@@ -685,6 +685,11 @@ func (f *Frame) cutLoop(li *loopInfo, st State) State {
 			}
 			vc.Assume(Implies(st.PC, t))
 		}
+		for _, lc := range li.spec.Lemmas {
+			if err := f.w.assumeLemmaInstance(vc, env, lc, st.PC); err != nil {
+				f.fail("loop %d lemma %s: %v", li.ordinal, lc.Src, err)
+			}
+		}
 		if li.spec.Decreases != nil {
 			v, err := env.Eval(li.spec.Decreases.E)
 			if err != nil || v.T.Sort != SInt {
